@@ -5,6 +5,7 @@ CONSTANTS MaxIdx = 9
           MaxReaders = 1
           MaxRF = 0
           Depth = 99
+          ReaderAtStart = TRUE
           DupMode = "any"
           QMode = "edge"
 VIEW core
